@@ -30,17 +30,18 @@ nesting depth. Clause by clause:
   exception: written at call time, never taken back ........... `persisted_ignores_reverted`
 * `HasKey` ..................................................... `has_latest`, `has_key_latest`
 * update/commit flush exactly the visible values ............... `commit_ignores_reverted`, `update_flushes_view`,
-                                                                 `stage_empties_buffer`
+                                                                 `update_account_half`, `stage_empties_buffer`
 
 Where the statements stop (see notes/C12.md): rolling back *across* an `Update` (the tries are
 not part of a snapshot; no caller does it) is outside every statement: `SDB.Op` has no update;
 a rollback to a revision that was never handed out or was invalidated is left undefined by the
 model (`Buf.rollback = none`) and the theorems show it never arises under the stated discipline.
 That the real trie realises the abstract map and that its root is a function of the content is
-C10's subject. The account-level half of `StateDB.update` (storage roots written back into
-account records) is exercised by the correspondence run only, not carried by a theorem.
+C10's subject. Object identity is not modelled: the model keeps values where the code keeps
+`*types.State` pointers; they agree as long as no undo-log entry changes after it was written,
+which the harness checks on every operation and on every transaction of the real executor.
 -/
-import Aergo.Lemmas.BufferStore
+import Aergo.Lemmas.BufferUpdate
 
 namespace Aergo.Props.C12
 open Aergo.Buffer
@@ -252,8 +253,9 @@ example :
 /-! ### nested block snapshots: the history IS the history of its surviving operations -/
 
 /-- Run any history of mutations (account puts, writes and contract-level rollbacks through handles on
-staged storages, staging of new contracts), `BlockState.Snapshot()`s and `BlockState.Rollback`s to
-live snapshots, in any nesting, on the model - undo logs, index stacks, revision numbers. The StateDB
+staged storages, staging of new contracts), `BlockState.Snapshot()`s, `BlockState.Rollback`s to
+live snapshots and droppings of snapshots (`keep`: a transaction succeeded), in any nesting, on the
+model - undo logs, index stacks, revision numbers. The StateDB
 it ends in is *the very value* obtained by executing, with no snapshot at all, only the operations
 that were not reverted (`survivors h`, a function of the history alone: the list a block producer
 is left with after dropping the rejected transactions). Both sides are defined; the right side never
@@ -441,6 +443,34 @@ write of a key reaches the trie, and a key without one keeps its trie value). -/
 theorem update_flushes_view (st : Storage) (h : st.buf.Inv) :
     ∃ st', st.update = some st' ∧ st'.buf = st.buf ∧ ∀ k, st'.trie.get k = st.view k :=
   Storage.update_spec h
+
+/-- `StateDB.Update` as a whole (`updateStorage` + account buffer into the account trie) is defined
+under the invariant and does exactly this: every staged storage is flushed (`Storage.flushed`: its
+trie alone reads what buffer-then-trie read, `update_flushes_view`; buffer untouched); the record of
+an account whose staged storage is dirty is re-put with the new storage root - created empty if the
+account had none (`recAfter`) - and every other account reads as before; afterwards the account trie
+alone reads, for every account, what buffer-then-trie reads. So what the state root commits to after
+`Update` is a function of the visible values only - which, by `reverted_never_happened`, are those of
+the surviving operations. -/
+theorem update_account_half (s : SDB) (h : s.Inv) :
+    ∃ s', s.update = some s' ∧
+      (∀ c, s'.cache.get c = (s.cache.get c).map Storage.flushed) ∧
+      (∀ c st, s.cache.get c = some st →
+        st.flushed.buf = st.buf ∧ ∀ k, st.flushed.trie.get k = st.view k) ∧
+      (∀ a, s'.view a = match s.cache.get a with
+        | some st => recAfter (s.view a) st
+        | none => s.view a) ∧
+      (∀ a, s'.trie.get a = s'.view a) := by
+  obtain ⟨s', h1, h2, h3, h4⟩ := SDB.update_spec h
+  exact ⟨s', h1, h2, fun c st hc => Storage.flushed_spec (SDB.sto_get h hc), h3, h4⟩
+
+/-- Test: `update_account_half` on a state with one dirty staged storage of an account without a
+record (the record is created with the new storage root) and one buffered account. -/
+example :
+    let s : SDB := ((SDB.new []).putState 4 { nonce := 1, sroot := [] }).stage 2 ((Storage.new []).setData 1 7)
+    ∃ s', s.update = some s' ∧ s'.view 2 = some { nonce := 0, sroot := [(1, 7)] } ∧
+      s'.trie.get 2 = some { nonce := 0, sroot := [(1, 7)] } ∧ s'.trie.get 4 = some { nonce := 1, sroot := [] } := by
+  refine ⟨_, rfl, ?_, ?_, ?_⟩ <;> decide
 
 /-- `bufferedStorage.stage` (the storage half of `Commit`) is defined and leaves an empty buffer on
 the same trie. -/
